@@ -15,7 +15,7 @@ import gen_harness
 import k3
 from vlib import CACHE, DRIVER, ENV, ensure_harness, harness_hash, model_hash, repo_hash
 
-SOURCES = ["vec", "slice", "vecref", "range", "iterx", "iteru", "deque"]
+SOURCES = ["vec", "slice", "vecref", "range", "iterx", "iteru", "deque", "dequeref", "cloned"]
 
 
 def lazy_chains(source):
@@ -120,6 +120,62 @@ def long_chunk_cases(r, cid0, tier):
     return out
 
 
+def mk_line(cid, src, chain, inp, stages, nt, cs, term, sched):
+    ops = ["N:%d" % nt, "%s:%d" % cs] + stages + ["%s:%d" % cs, "N:%d" % nt]
+    return "id=%d shape=%s known=%d in=%s ops=%s term=%s avail=%d sched=%s fuel=0 macro=1" % (
+        cid, gen_harness.shape_name(src, chain), 1 if gen_harness.SOURCES[src][2] else 0,
+        ",".join(map(str, inp)), ";".join(ops), term, k3.AVAIL, ",".join(map(str, sched)))
+
+
+def designed_cases(r, cid0, tier):
+    """(A) one run that mixes the chunk-size-1 code path and the chunked one: Min(1) / Auto, eight
+    threads, the first four workers progress before the spawner's lag decision, so the workers
+    spawned afterwards get a larger chunk size;  (B) flat_map + find where the first match sits at
+    inner offset 2 of the last element of a chunk and the next chunk matches at its first item."""
+    out = []
+    cid = cid0
+    srcs = ["vec", "iterx", "slice"] if tier == "quick" else ["vec", "iterx", "iteru", "slice", "deque"]
+    for src in srcs:
+        for ch in lazy_chains(src):
+            ty = k3.item_type(src, ch)
+            for k, term in enumerate(["cv", "cs", "ci:v:7/8", "cx", "cnt", "red", "find:Fg:30", "first"]):
+                if term == "red":
+                    term = "red:min" if ty != "val" else "red:add"
+                n = 40
+                inp = r.sample(range(-40, 60), n)
+                stages = []
+                for st in ch:
+                    stages.append({"M": r.choice(k3.MAPS), "F": r.choice(k3.FILS), "X": r.choice(k3.FLATS), "O": r.choice(k3.FMS)}[st](r))
+                cs = ("Cm", 1)
+                sched = gen_sched(r, "progress_before_lag", 8, n)
+                out.append((mk_line(cid, src, ch, inp, stages, 8, cs, term, sched), "mixed_chunk_arms", inp))
+                cid += 1
+    flat = {"X": ["X:3:100"], "XF": ["X:3:100", "Fa"], "MX": ["M:1:0", "X:3:100"], "XM": ["X:3:100", "M:1:0"]}
+    for src in (["vec", "iterx", "range"] if tier == "quick" else ["vec", "iterx", "iteru", "range", "slice", "deque"]):
+        have = set(lazy_chains(src))
+        for ch, stages in flat.items():
+            if ch not in have:
+                continue
+            for c in [2, 3, 5]:
+                for mult in [1, 2]:
+                    n = 3 * c + 1
+                    rr = c * mult            # element rr-1 matches at inner offset 2, element rr at inner offset 0
+                    inp = list(range(n))
+                    for style in ["conc_a", "conc_b", "late_first", "spawner_slow"]:
+                        term = r.choice(["find", "find", "any"]) + ":F:199:%d" % rr
+                        nt = 2 if style.startswith("conc") else 2 + mult
+                        if style.startswith("conc"):
+                            # worker 1 holds the chunk that ends with element rr-1, worker 2 the next one
+                            pre = [0] * 6 + [1] * (1 + c * (mult - 1)) + [2]
+                            pre += ([2] * (c + 2) + [1] * (c + 3)) if style == "conc_a" else ([1] * (c + 3) + [2] * (c + 3))
+                            sched = pre + gen_sched(r, "late_first", nt, n)
+                        else:
+                            sched = gen_sched(r, style, nt, n)
+                        out.append((mk_line(cid, src, ch, inp, stages, nt, ("C", c), term, sched), "flat_inner_" + style, inp))
+                        cid += 1
+    return out
+
+
 def run_k4(tier, seed):
     os.makedirs(CACHE, exist_ok=True)
     key = "k4-%s-%s-%s-%s-%d" % (repo_hash(), model_hash(), harness_hash(), tier, seed)
@@ -141,6 +197,9 @@ def run_k4(tier, seed):
                 meta.append((style, inp))
                 cid += 1
     for (line, style, inp) in long_chunk_cases(r, cid, tier):
+        cases.append(line)
+        meta.append((style, inp))
+    for (line, style, inp) in designed_cases(r, cid + 100, tier):
         cases.append(line)
         meta.append((style, inp))
     rc1, impl, err1 = k3.parallel_run(bins["k3"], [], cases, shards=8)
